@@ -125,9 +125,8 @@ def classify(clause, lines):
 class C05(Check):
     prop = "C05"
     required_theorems = ["in_downtime_iff", "depth_eq_count", "trigger_write_once", "trigger_write_once_run",
-                         "trigger_only_in_window", "trigger_cascade", "end_once", "expired_removed", "owner_protected",
-                         "start_once_partial", "start_once_counterexample", "started_counterexample",
-                         "flexible_trigger_partial", "flexible_trigger_counterexample"]
+                         "trigger_only_in_window", "trigger_cascade", "flexible_trigger", "start_once",
+                         "started_partial", "started_counterexample", "end_once", "expired_removed", "owner_protected"]
     technique = ("Lean 4 proof (invariants over the operation sequence) about a hand-written model of lib/icinga/downtime.cpp; correspondence by "
                  "differential execution of real Host/Service/Downtime objects under the virtual clock and the timer pump")
     level_text = ("Machine-checked theorems (Lean 4 kernel) about the executable model of Downtime::IsInEffect/IsTriggered/IsExpired/CanBeTriggered/"
